@@ -35,7 +35,7 @@ Qed.
 
 Lemma run_body_prop : forall p, body_prop (run_body E C fault p).
 Proof.
-  induction p as [o | m chk k IHk | chk k IHk | b IHb chk k IHk | n k IHk | n k IHk];
+  induction p as [o | m chk k IHk | chk k IHk | b IHb chk rcv k IHk | n k IHk | n k IHk];
     intros h s r l h' s' H; cbn [run_body] in H.
   - destruct o; inversion H; subst; reflexivity.
   - destruct (h_stmt fault (Some m) h s) as [[e n0] s1].
@@ -57,7 +57,9 @@ Proof.
       match type of H with context [run_body E C fault k h1 ?sx] => set (s1' := sx) in * end.
       destruct (run_body E C fault k h1 s1') as [[[r1 l1] h2] s2] eqn:Ek. apply IHk in Ek.
       inversion H; subst. cbn [forallb]. rewrite En, Ek. reflexivity.
-    + inversion H; subst. cbn [forallb]. rewrite En. reflexivity.
+    + destruct rcv; [|inversion H; subst; cbn [forallb]; rewrite En; reflexivity].
+      destruct (run_body E C fault k h1 s1) as [[[r1 l1] h2] s2] eqn:Ek. apply IHk in Ek.
+      inversion H; subst. cbn [forallb]. rewrite En, Ek. reflexivity.
   - destruct (h_sp E C fault true (NUser n) h s) as [h1 s1].
     destruct h1; [inversion H; subst; reflexivity|].
     destruct (run_body E C fault k None s1) as [[[r1 l1] h2] s2] eqn:Ek. apply IHk in Ek. inversion H; subst. exact Ek.
@@ -182,9 +184,9 @@ Qed.
 Definition cfg_default := mk_cfg false false false true.
 Definition cfg_stock := mk_cfg false false false false.
 (* tx.Create(1); tx.Transaction(create 2) with its error ignored; tx.Create(3); return nil *)
-Definition sticky_prog := Write 1 true (Child (Write 2 true (Done RetNil)) false (Write 3 false (Done RetNil))).
+Definition sticky_prog := Write 1 true (Child (Write 2 true (Done RetNil)) false false (Write 3 false (Done RetNil))).
 (* the same with a nested block that fails *)
-Definition stock_prog := Write 1 true (Child (Write 2 true (Done (RetErr 1))) false (Write 3 false (Done RetNil))).
+Definition stock_prog := Write 1 true (Child (Write 2 true (Done (RetErr 1))) false false (Write 3 false (Done RetNil))).
 
 (* REFUTED: with a fault on the SAVEPOINT of a nested block whose error the enclosing function
    ignores, COMMIT succeeds (marker 1 durable) but Transaction returns the stale error, and the
@@ -205,7 +207,7 @@ Proof. exists cfg_stock, stock_prog, 2%nat. vm_compute. repeat split. Qed.
    statement, meeting every hypothesis of the theorems, with a non-trivial durable set *)
 Definition demo_prog :=
   Write 1 true (Save 7 (Write 2 true (Child
-     (Write 3 true (Child (Write 4 true (Done (RetErr 5))) true (Done RetNil))) false
+     (Write 3 true (Child (Write 4 true (Done (RetErr 5))) true false (Done RetNil))) false false
      (RbTo 7 (Write 6 true (Write 8 false (Done RetNil))))))).
 Lemma demo_instance :
   scoped [] demo_prog = true /\ let '(o, x, s) := run_top ref_env cfg_default (fault_at (Some 12%nat)) false demo_prog [] (init_st []) in
